@@ -29,7 +29,7 @@ func init() {
 			"(same document, external fragment in same/parent/sibling/child directory, whole file in another directory whose object holds a relative ref, untyped x- extension) × chain length 1..2 × path spellings " +
 			"(x.json, ./x.json, ../d/x.json, d/../x.json, absolute, doubled slash) × root directory depth × entry point (file, data+path, data, http URI); shapes: diamond, self and mutual cycles per kind, " +
 			"callback/path-item cycles, pointer escapes (~0, ~1, ~01 with decoy siblings), dangling (component, file, nil field), wrong kind, scalar target, slash-less fragment, pure $ref cycle, '#', " +
-			"histories of 2..3 loads on ONE Loader (a revision whose reference dangles below a referenced component, then the corrected one with the same reference texts; every pair of entry points LoadFromData / LoadFromFile / LoadFromDataWithPath / LoadFromURI; the same root twice; two roots sharing an external document that the first load walked cleanly / left half-walked; histories over a store that CHANGES between the loads: the root edited in place — repaired, broken by the edit, changed, three revisions — for every pair of located entry points, an external fragment document edited, a whole-file element replaced / removed, an external document appearing / disappearing), null members at loop-element positions (in the root, below a typed target, below an untyped x- target), two documents with one path on two hosts, the #29 two-directory layout, kind clash per slot (same document / document loaded through the reference), path-item chains (2..3 hops, across directories, cyclic, to a whole file, through a callback), '#/…' inside whole-file elements per kind, pointers through a header, 3-hop chains per kind; then a seeded random stream of 2..4-file layouts with random components whose child slots are inline values or references to random components by random spelling. " +
+			"histories of 2..3 loads on ONE Loader (a revision whose reference dangles below a referenced component, then the corrected one with the same reference texts; every pair of entry points LoadFromData / LoadFromFile / LoadFromDataWithPath / LoadFromURI; the same root twice; two roots sharing an external document that the first load walked cleanly / left half-walked; histories over a store that CHANGES between the loads: the root edited in place — repaired, broken by the edit, changed, three revisions — for every pair of located entry points, an external fragment document edited, a whole-file element replaced / removed, an external document appearing / disappearing), null members at loop-element positions (in the root, below a typed target, below an untyped x- target), two documents with one path on two hosts, the #29 two-directory layout, kind clash per slot (same document / document loaded through the reference), path-item chains (2..3 hops, across directories, cyclic, to a whole file, through a callback), '#/…' inside whole-file elements per kind, pointers through a header, 3-hop chains per kind; then a seeded random stream of 2..4-file layouts with random components whose child slots are inline values or references to random components by random spelling, and a random stream of changing-store histories (2..3 independent random layouts on one Loader, the store replaced in between); data loads of changing-store histories partly through LoadFromIoReader. " +
 			"A case is non-trivial when the driver reports at least one branch (it always reports the reference forms, kinds and classes present).",
 		Exhaustive: true,
 		Gen:        genC02,
@@ -752,7 +752,7 @@ func genC02(ctx *hx.Ctx, emit func(hx.Case)) {
 	}
 	// random histories over a changing store: 2..3 independent random layouts (they share directory and file names and
 	// most reference texts) loaded one after the other on ONE Loader, the store replaced wholesale in between
-	for i := 0; i < n/10; i++ {
+	for i := 0; i < n/15; i++ {
 		eps := []any{}
 		for k := 2 + ctx.Rng.Intn(2); k > 0; k-- {
 			eps = append(eps, c02AsEpoch(c02Random(ctx.Rng)))
